@@ -99,3 +99,54 @@ func VerifC08_ChainEvaluation() {
 	vn.Assert("C08/unmatched-message", vn.Implies(vn.And(!gotOK, !decided), resp.GetStatus().GetMessage() == "no chains matched"))
 	vn.Assert("C08/filter-denial-as-is", vn.Implies(vn.And(!gotOK, decided), resp.GetStatus().GetMessage() == ""))
 }
+
+// VerifC08_VerdictIndependentOfEarlierRequests: one ExtAuthZFilter serves every request of the
+// process, so the judgement of a request must be the reference verdict whatever was asked before.
+// Two chains -- named alike (the loader does not require names to differ, and both may be empty)
+// or differently -- with equality criteria on one header, one to two mock filters each; two
+// requests in a row on the same filter, each carrying any of three header values. The second
+// verdict is compared with the reference for the second request alone.
+func VerifC08_VerdictIndependentOfEarlierRequests() {
+	names := [2]string{"first", "second"}
+	switch vn.Choice("chain-names", 3) {
+	case 1:
+		names = [2]string{"same", "same"}
+	case 2:
+		names = [2]string{"", ""}
+	}
+	values := [3]string{"public", "private", "other"}
+	cfg := &configv1.Config{AllowUnmatchedRequests: vn.Bool("allow-unmatched")}
+	for i := 0; i < 2; i++ {
+		tag := "chain" + string(rune('0'+i))
+		ch := &configv1.FilterChain{Name: names[i], Match: &configv1.Match{Header: "x-kind", Criteria: &configv1.Match_Equality{Equality: values[i]}}}
+		nf := 1 + vn.Choice(tag+"-nfilters", 2)
+		for j := 0; j < nf; j++ {
+			allow := vn.Bool(tag + "-allow" + string(rune('0'+j)))
+			ch.Filters = append(ch.Filters, &configv1.Filter{Type: &configv1.Filter_Mock{Mock: &mockv1.MockConfig{Allow: allow}}})
+		}
+		cfg.Chains = append(cfg.Chains, ch)
+	}
+	ref := func(v int) bool {
+		if v >= 2 {
+			return cfg.AllowUnmatchedRequests
+		}
+		all := true
+		for _, f := range cfg.Chains[v].Filters {
+			all = vn.And(all, f.GetMock().GetAllow())
+		}
+		return all
+	}
+	e := &ExtAuthZFilter{log: internal.Logger(internal.Authz), cfg: cfg}
+	v1 := vn.Choice("first-request-kind", 3)
+	v2 := vn.Choice("second-request-kind", 3)
+	r1, err1 := e.Check(context.Background(), kitReq("/", map[string]string{"x-kind": values[v1]}))
+	vn.Assert("C08/check-returns-verdict:first", vn.And(err1 == nil, r1 != nil))
+	vn.Assert("C08/verdict-equals-reference:first-request", (r1.GetStatus().GetCode() == 0) == ref(v1))
+	r2, err2 := e.Check(context.Background(), kitReq("/", map[string]string{"x-kind": values[v2]}))
+	vn.Assert("C08/check-returns-verdict:second", vn.And(err2 == nil, r2 != nil))
+	got2 := r2.GetStatus().GetCode() == 0
+	vn.Cover("C08/second-request-other-chain", vn.And(v1 != v2, v1 < 2, v2 < 2))
+	vn.Cover("C08/second-request-ok", got2)
+	vn.Cover("C08/second-request-denied", !got2)
+	vn.Assert("C08/verdict-independent-of-earlier-requests", got2 == ref(v2))
+}
